@@ -66,7 +66,13 @@ func NewRun(prop, tier, level string) *Run {
 func (r *Run) Thorough() bool { return r.Tier == "thorough" }
 
 // SetBudget sets an internal wall-clock cap; hitting it makes the run non-exhaustive (never a violation).
-func (r *Run) SetBudget(d time.Duration) { r.deadline = r.start.Add(d) }
+func (r *Run) SetBudget(d time.Duration) {
+	// VERIF_BUDGET_S overrides every internal budget (used to test the budget path itself; never set in MANIFEST commands)
+	if v, err := strconv.Atoi(os.Getenv("VERIF_BUDGET_S")); err == nil && v > 0 {
+		d = time.Duration(v) * time.Second
+	}
+	r.deadline = r.start.Add(d)
+}
 
 // OverBudget reports whether the internal cap has been reached (and records the cap).
 func (r *Run) OverBudget() bool {
@@ -131,6 +137,11 @@ func (r *Run) Add(kind string, c json.RawMessage, res *Result) bool {
 	}
 	if len(r.samples) < 2 && len(res.Data) > 2 && kind != "merge" {
 		r.samples = append(r.samples, json.RawMessage(res.Data)) // every evidence file shows at least a couple of real cases
+	}
+	if res.Incomplete {
+		r.Exhaustive = false
+		n, _ := r.Extra["cases_cut_short_by_budget"].(int)
+		r.Extra["cases_cut_short_by_budget"] = n + 1
 	}
 	if res.Died {
 		class := "worker-died:" + PanicLine(res.Stderr)
@@ -427,7 +438,11 @@ func (r *Run) BFS(kind string, roots []json.RawMessage, maxDepth int, onResult f
 // MapBudget runs the cases like Map but stops dispatching when the run's internal budget is reached; the
 // run is then reported as not exhaustive with the number of cases left out (never a violation).
 func (r *Run) MapBudget(kind string, cases []json.RawMessage, cb func(i int, c json.RawMessage, res *Result)) {
+	if !r.deadline.IsZero() {
+		RunDeadline = r.deadline.UnixNano() // workers stop enumerating at the budget too (Result.Incomplete)
+	}
 	skipped := MapUntil(kind, cases, r.OverBudget, cb)
+	RunDeadline = 0 // witness confirmation and replay run without a deadline
 	if skipped > 0 {
 		r.Exhaustive = false
 		r.Extra["cases_not_run_because_of_budget"] = skipped
